@@ -620,6 +620,69 @@ func (c *Ctx) c08Deprecated(mw2 *ssa.Function, full, two int64) {
 		}
 	}
 	r.Check(seen[full] && seen[two], "C08.deprecated", name, "both bits mapped", c.P.Pos(mm.Pos()), "forceFullAuth->RequireFullAuth, force2fa->Require2FA", "a requirement flag is not mapped to its bit")
+	// the value handed on, for each of the four flag combinations: the flags are
+	// independent (an `else if` between them drops the second requirement when both are asked for)
+	for _, call := range Calls(mm) {
+		if StaticCallee(call) != mw2 {
+			continue
+		}
+		for mask := 0; mask < 4; mask++ {
+			vF, v2 := mask&1 != 0, mask&2 != 0
+			w := Walk{Atom: func(v ssa.Value) (bool, bool) {
+				switch v {
+				case ssa.Value(pFull):
+					return vF, true
+				case ssa.Value(p2fa):
+					return v2, true
+				}
+				return false, false
+			}, Stop: func(in ssa.Instruction) bool { return in == call.(ssa.Instruction) }}
+			want := int64(0)
+			if vF {
+				want |= full
+			}
+			if v2 {
+				want |= two
+			}
+			okRow, got := true, "?"
+			traces := w.Traces(mm)
+			for _, t := range traces {
+				if t.End != call.(ssa.Instruction) {
+					continue
+				}
+				var eval func(v ssa.Value, d int) (int64, bool)
+				eval = func(v ssa.Value, d int) (int64, bool) {
+					if d > 10 {
+						return 0, false
+					}
+					v = t.Resolve(v)
+					if n, isC := ConstInt(v); isC {
+						return n, true
+					}
+					if bo, ok := v.(*ssa.BinOp); ok && bo.Op == token.OR {
+						a, okA := eval(bo.X, d+1)
+						b, okB := eval(bo.Y, d+1)
+						return a | b, okA && okB
+					}
+					if cv, ok := v.(*ssa.Convert); ok {
+						return eval(cv.X, d+1)
+					}
+					return 0, false
+				}
+				n, known := eval(Arg(call, 2), 0)
+				if known {
+					got = sprintf("%d", n)
+				}
+				if !known || n != want {
+					okRow = false
+				}
+			}
+			if len(traces) == 0 {
+				okRow = false
+			}
+			r.Check(okRow, "C08.deprecated", name, sprintf("reqs for forceFullAuth=%v force2fa=%v", vF, v2), posf(c, call), sprintf("requirements = %d", want), sprintf("the deprecated constructor hands on requirements %s where the flags ask for %d: a requirement that was asked for is not enforced", got, want))
+		}
+	}
 	// failResponse: RespondRedirect only under redirectToLogin
 	redirect := c.P.ConstInt("", "RespondRedirect")
 	notFound := c.P.ConstInt("", "RespondNotFound")
